@@ -1045,10 +1045,15 @@ fn get_key_for_indexed_array(
 ) -> Result<u64, error::Error> {
     let mut index_value = index_str.parse::<i64>().unwrap_or(0);
 
-    // Handle negative indices, but check for out-of-range values.
-    #[expect(clippy::cast_possible_wrap)]
+    // Handle negative indices, but check for out-of-range values. Negative indices count back
+    // from one past the highest index in use (which, for sparse arrays, is not the same as the
+    // number of elements).
     if index_value < 0 {
-        index_value += values.len() as i64;
+        let past_end = match values.last_key_value() {
+            Some((max_key, _)) => max_key.wrapping_add(1),
+            None => 0,
+        };
+        index_value = index_value.wrapping_add(past_end.cast_signed());
         if index_value < 0 {
             return Err(error::ErrorKind::ArrayIndexOutOfRange(index_str.to_owned()).into());
         }
